@@ -45,6 +45,16 @@ CHECKS = {
                  "No faults exist to inject for this property."),
         "note": "Trusted: the 15-line model (independent RandomState re-draw for randomize, np.repeat expansion). Tolerance 1e-11 relative on views, 1e-10 on matrix products.",
     },
+    "C10": {
+        "engine": "simkit", "level": "exploration", "design_ref": "DESIGN.md section 4 (C10)",
+        "technique": "deterministic simulation of solver histories: seeded scheduler of solve/setter/read operations, every reachable RandomState re-seeded from the plan, per-iteration monitor wrapped around _step while solve() runs, relations re-checked after every operation",
+        "text": ("Seeded exploration of operation histories on the five IA solvers (K=2-4, unequal antennas, 1..min-1 streams, all initialisation modes, 1-60 iterations, scalar/vector power). "
+                 "After EVERY operation on which precoders/filters are defined: unit-norm F, |full_F|^2 <= current P (== for all but MMSE), full_W_H H_kk full_F = I (tolerance 1e-8*cond), "
+                 "W/W_H conjugate transposes, Ns consistent with shapes, closed form nulls all cross links; while solve() runs the leaked interference after each iteration is recorded "
+                 "and must not increase (alt-min, min-leakage, equal powers, no noise). Reads are operations (they populate the caches that the history clause is about)."),
+        "note": ("Trusted: the relation checks (numpy), tolerances stated in DESIGN.md; MMSE power tolerance 1e-5 because its Lagrange multiplier comes from scipy's newton with default tolerance. "
+                 "Two genuine defects are recorded as known findings (leakage increase under repeated zero eigenvalues; ZeroDivisionError of the noise-free closed form)."),
+    },
 }
 
 _PENDING = ["C03", "C06", "C08", "C10", "C13", "C14", "C15"]
